@@ -61,6 +61,25 @@ def Fs.create (fs : Fs) (p : List Bytes) : Fs × Bool :=
     | some .dir => (fs, false)
     | _ => (fs.set p (.file []), true)
 
+/-- the directory a path prefix resolves to, the way the OS walks it: every component that is
+    walked through must be an existing directory at that moment, also one that a later `..` leaves again -/
+def Fs.resolveDir (fs : Fs) : List Bytes → List Bytes → Option (List Bytes)
+  | cur, [] => some cur
+  | cur, c :: cs =>
+    if c = [] ∨ c = [dot] then fs.resolveDir cur cs
+    else if c = [dot, dot] then fs.resolveDir cur.dropLast cs
+    else if fs.get (cur ++ [c]) = some .dir then fs.resolveDir (cur ++ [c]) cs else none
+
+/-- `os.Create` on a path that may contain `.` / `..` / empty components (a trailing slash leaves an
+    empty last component: not a file name) -/
+def Fs.createWalk (fs : Fs) (comps : List Bytes) : Fs × Bool :=
+  match comps.getLast? with
+  | none => (fs, false)
+  | some last =>
+    match fs.resolveDir [] comps.dropLast with
+    | none => (fs, false)
+    | some d => fs.create (d ++ [last])
+
 /-- write through a handle at its offset (a file truncated under the handle is zero-filled) -/
 def Fs.writeAt (fs : Fs) (p : List Bytes) (off : Nat) (data : Bytes) : Fs :=
   match fs.get p with
@@ -109,6 +128,9 @@ def dlFile (filePath : Bytes) : Bytes :=
 def downloadAdd (agentsDir : List Bytes) (fs : Fs) (a : LootAgent) (fileId : Nat) (filePath : Bytes) :
     Fs × LootAgent × Bool :=
   if insideDir (dlTarget agentsDir a filePath) (dlDirStr agentsDir a) = false then (fs, a, false)
+  -- a NUL byte in the directory part: the OS refuses the path (Stat fails with EINVAL, which is not
+  -- "does not exist", so nothing is made; Create fails the same way)
+  else if (dlTarget agentsDir a filePath).contains 0 then (fs, a, false)
   else
     match fs.mkdirWalk (splitByte slash (dlTarget agentsDir a filePath)) with
     | (fs1, false) => (fs1, a, false)
